@@ -13,6 +13,7 @@ package main
 //   limits and token caps respected by every op that succeeded.
 
 import (
+	tokenstypes "github.com/KiraCore/sekai/x/tokens/types"
 	layer2keeper "github.com/KiraCore/sekai/x/layer2/keeper"
 	layer2types "github.com/KiraCore/sekai/x/layer2/types"
 	"fmt"
@@ -1130,7 +1131,31 @@ func (e *c11Env) genSwap(id uint64) {
 	e.doSwap(a, id, ps)
 }
 
+// flagRegistryEntry: governance edits the token-registry entry of the basket's OWN token (it is registered at the first
+// mint) through an enacted UpsertTokenInfos proposal - display fields, the `inactive` flag, fee settings. Nothing of this is
+// the basket's business: mints, burns and swaps behave as before (no model op).
+func (e *c11Env) flagRegistryEntry(id uint64) {
+	b, err := e.k.GetBasketById(e.ctx, id)
+	if err != nil {
+		return
+	}
+	ti := e.w.app.TokensKeeper.GetTokenInfo(e.ctx, b.GetBasketDenom())
+	if ti == nil {
+		e.r.Count("registry-flag:not-registered")
+		return
+	}
+	inactive := !ti.Inactive
+	err = e.w.Enact(e.ctx, 0, tokenstypes.NewUpsertTokenInfosProposal(ti.Denom, ti.TokenType, ti.FeeRate, ti.FeeEnabled, ti.Supply, ti.SupplyCap, ti.StakeCap, ti.StakeMin, ti.StakeEnabled, inactive,
+		ti.Symbol, "basket token", ti.Icon, ti.Decimals, ti.Description, ti.Website, ti.Social, ti.Holders, ti.MintingFee, ti.Owner, ti.OwnerEditDisabled, ti.NftMetadata, ti.NftHash))
+	e.r.Count(fmt.Sprintf("registry-flag:inactive=%v:%s", inactive, okErr(err)))
+	e.observe(id)
+}
+
 func (e *c11Env) genEdit(id uint64) {
+	if e.r.Rng.Intn(5) == 0 {
+		e.flagRegistryEntry(id)
+		return
+	}
 	rng := e.r.Rng
 	b, err := e.k.GetBasketById(e.ctx, id)
 	if err != nil {
